@@ -164,7 +164,7 @@ def faults(doc):
         d = copy.deepcopy(doc)
         d['Modules'][name]['colour'] = 1
         yield 'unknown-attribute', name, d
-        for badname in ('1abc', 'a-b', 'a b', ''):
+        for badname in ('1abc', 'a-b', 'a b', '', name + '\n', '\n' + name, name + ' ', name + '\t', name + '.x'):
             d = copy.deepcopy(doc)
             d['Modules'] = {(badname if k == name else k): v for k, v in d['Modules'].items()}
             d['Nets'] = [[(badname if x == name else x) for x in e] for e in d.get('Nets', [])]
